@@ -15,10 +15,38 @@ package upstream
 //@ pred configuredUpstream(opts []UpstreamServerOption, name string) := exists i int :: 0 <= i && i < len(opts) && opts[i].Name == name
 
 // builds the pool from the option, runs one synchronous health check and starts the checker
-//@ func NewUpstreamServer(opt UpstreamServerOption) (u *upstreamServer)
+//@ pred cfgPrimary(opt UpstreamServerOption, a string) := exists i int :: 0 <= i && i < len(opt.Servers) && !opt.Servers[i].Backup && opt.Servers[i].Addr == a
+//@ pred cfgBackup(opt UpstreamServerOption, a string) := exists i int :: 0 <= i && i < len(opt.Servers) && opt.Servers[i].Backup && opt.Servers[i].Addr == a
+//@ func newTransport(h2c bool) (t http.RoundTripper)
 //@   trusted
 //@   nopanic
-//@   ensures [fresh] fresh(u)
+// C19 (delegation): the pool is told the configured policy and health-check path, only configured
+// primaries become primaries and only configured backups become backups, and the synchronous health
+// check has run before the upstream is handed out
+//@ func NewUpstreamServer(opt UpstreamServerOption) (u *upstreamServer)
+//@   nopanic
+//@   modifies nothing
+//@   ensures [fresh] fresh(u) && u.HTTPUpstream != nil && fresh(u.HTTPUpstream) && u.Proxy != nil && u.Option != nil
+//@   ensures [policy] u.HTTPUpstream.Policy == opt.Policy && u.HTTPUpstream.Ping == opt.HealthCheck
+//@   ensures [primaries] forall a string :: u.HTTPUpstream.g_prim[a] ==> cfgPrimary(opt, a)
+//@   ensures [backups]   forall a string :: u.HTTPUpstream.g_back[a] ==> cfgBackup(opt, a)
+//@   ensures [checked]   u.HTTPUpstream.g_checked
+//@   ensures [option]    u.Option.AcceptEncoding == opt.AcceptEncoding && u.Option.Name == opt.Name
+//@   loop 0: modifies uh.g_prim, uh.g_back
+//@   loop 0: invariant [idx] -1 <= $idx && $idx < len(opt.Servers) && uh != nil && fresh(uh)
+//@   loop 0: invariant [primaries] forall a string :: uh.g_prim[a] ==> exists i int :: 0 <= i && i <= $idx && !opt.Servers[i].Backup && opt.Servers[i].Addr == a
+//@   loop 0: invariant [backups]   forall a string :: uh.g_back[a] ==> exists i int :: 0 <= i && i <= $idx && opt.Servers[i].Backup && opt.Servers[i].Addr == a
+//@   loop 0: invariant [unchecked] uh.Policy == opt.Policy && uh.Ping == opt.HealthCheck
+
+// the target handed to the proxy is exactly the server the pool picked; no server means an error at once
+//@ func newTargetPicker$1(c *elton.Context) (target *url.URL, pdone middleware.ProxyDone, err error)
+//@   requires [captured-pool] uh != nil
+//@   nopanic
+//@   ensures_local [picked] httpUpstream != nil ==> target == httpUpstream.URL && err == nil
+//@   ensures_local [none]   httpUpstream == nil ==> target == nil && pdone == nil && err == box(ErrUpstreamNotFound)
+//@ func newTargetPicker$1$1(c *elton.Context)
+//@   requires [captured-done] done != nil
+//@   nopanic
 
 //@ func (u *upstreamServer) Destroy()
 //@   requires [recv] u != nil
